@@ -194,6 +194,35 @@ SCRIPTS = [
 ]
 
 
+def failed_assignment_case(col):
+    """an assignment whose automatic update RAISES part-way (a validating distribution rejects the derived scale): afterwards every node that
+    reports up to date holds the from-scratch value for the values the model holds now, and a later valid assignment recovers"""
+    import tensorflow_probability.substrates.jax.distributions as tfd_
+    x = lsl.Var(np.float32(3.0), name="x")
+    scale = lsl.Var(lsl.Calc(lambda v: 2.0 * v, x), name="scale")
+    other = lsl.Var(lsl.Calc(lambda s, v: s + v, scale, x), name="other")
+    y = lsl.Var(np.float32(0.5), lsl.Dist(tfd_.Normal, loc=0.0, scale=scale, validate_args=True), name="y")
+    m = lsl.GraphBuilder().add(y, other).build_model()
+    raised = False
+    try:
+        m.vars["x"].value = np.float32(-1.0)
+    except Exception:
+        raised = True
+    xv = float(m.vars["x"].value)
+    bad = None
+    if not raised:
+        bad = "assigning a value for which the distribution is invalid did not raise"
+    for name, want in (("scale_value", 2.0 * xv), ("other_value", 3.0 * xv)):
+        nd = m.nodes[name]
+        if bad is None and not nd.outdated and not np.isclose(float(nd.value), want):
+            bad = f"after the failed assignment (x is now {xv}): node {name} reports up to date but holds {float(nd.value)}, from-scratch value {want}"
+    if bad is None:
+        m.vars["x"].value = np.float32(2.0)
+        if any(n.outdated for n in m.nodes.values()) or not np.isclose(float(m.nodes["scale_value"].value), 4.0) or not np.isclose(float(m.nodes["other_value"].value), 6.0):
+            bad = "a later valid assignment did not bring the model back to a coherent state"
+    col.add(None if bad is None else {"sig": "native::coherence::failed_assignment", "what": bad, "input": {"graph": "x -> scale = 2x -> Normal(0, scale, validate_args=True)", "assigned": -1.0}})
+
+
 def inplace_case(col, auto_update):
     """a MUTABLE value (numpy array / dict of arrays) changed in place and assigned back: same object, new contents - every dependent node
     must be recomputed (full update, and targeted update)"""
@@ -227,6 +256,10 @@ def bounded(tier, seed):
     rng = random.Random(seed)
     col = util.Collector()
     n_graphs, n_hist, length = (12, 4, 6) if tier == "quick" else (150, 12, 7)
+    try:
+        failed_assignment_case(col)
+    except Exception as e:
+        col.add({"sig": f"native::coherence::exception::{type(e).__name__}", "what": f"{type(e).__name__}: {str(e)[:200]}", "input": {"scenario": "failed assignment"}})
     for au in (True, False):
         try:
             inplace_case(col, au)
